@@ -1,4 +1,5 @@
 ---- MODULE MCLegacy ----
 EXTENDS HistLegacy
 MCData == {-12, -7, -4, -1, 0, 3, 8}
+MCSeconds == {<<>>, <<-12, 8>>, <<3, 3, 0>>}
 ====
